@@ -1,6 +1,256 @@
 import OtelVerif.Common.Line
 import OtelVerif.Model.C17
-/-! driver for C17 (stub) -/
-def main : IO UInt32 := do
-  IO.eprintln "drv_c17: not built yet"
-  return 2
+/-! driver for C17: models `c17-split` (split functions, exact differential) and `c17-proc` (processor) -/
+open OtelVerif OtelVerif.Line OtelVerif.Payload OtelVerif.C17
+
+namespace OtelVerif.Drivers.C17
+
+inductive Src where
+  | none
+  | logs (size : Nat) (p : List Res)
+  | metrics (size : Nat) (p : List MRes)
+
+structure SS where
+  src : Src := .none
+  implDest : Option (List String) := none
+  implRem : Option (List String) := none
+  bad : Option String := none
+
+/-- ids of the items of a flattening, to classify a failure -/
+def idsOf (l : List Ctx) : List Nat := l.map (·.2.2.id)
+def midsOf (l : List MCtx) : List Nat := l.map (·.2.2.2.id)
+
+/-- the property oracle on the implementation's own output: conservation with context, and exact size -/
+def checkLogs (size : Nat) (src dest rem : List Res) : List String :=
+  if count src ≤ size then
+    [if permB (flatten dest) (flatten src) then "prop conserve=ok" else "prop conserve=FAIL sig=C17/split/whole-payload-changed"]
+  else
+    let a := flatten dest ++ flatten rem
+    let b := flatten src
+    [ if permB a b then "prop conserve=ok"
+      else if permB (idsOf a) (idsOf b) then
+        s!"prop conserve=FAIL sig=C17/split/item-context-changed size={size}"
+      else s!"prop conserve=FAIL sig=C17/split/items-lost-or-duplicated size={size}",
+      if count dest = size then "prop size=ok" else s!"prop size=FAIL sig=C17/split/wrong-batch-size want={size} got={count dest}" ]
+
+def checkMetrics (size : Nat) (src dest rem : List MRes) : List String :=
+  if mcount src ≤ size then
+    [if permB (mflatten dest) (mflatten src) then "prop conserve=ok" else "prop conserve=FAIL sig=C17/split/whole-payload-changed"]
+  else
+    let a := mflatten dest ++ mflatten rem
+    let b := mflatten src
+    [ if permB a b then "prop conserve=ok"
+      else if permB (midsOf a) (midsOf b) then
+        s!"prop conserve=FAIL sig=C17/split/point-context-changed size={size}"
+      else s!"prop conserve=FAIL sig=C17/split/points-lost-or-duplicated size={size}",
+      if mcount dest = size then "prop size=ok" else s!"prop size=FAIL sig=C17/split/wrong-batch-size want={size} got={mcount dest}" ]
+
+def splitHandler : Handler SS where
+  init := {}
+  onOp := fun s toks =>
+    match toks with
+    | kind :: sz :: "|" :: rest =>
+      match kvNat [sz] "size" with
+      | some size =>
+        if kind = "splitlogs" ∨ kind = "splittraces" then
+          match Codec.parsePayload rest with
+          | some p =>
+            let r := splitLogs size p
+            ({ s with src := .logs size p }, [s!"obs dest | {Codec.showPayload r.1}", s!"obs rem | {Codec.showPayload r.2}"])
+          | Option.none => (s, ["obs bad-op"])
+        else if kind = "splitmetrics" then
+          match Codec.parseMPayload rest with
+          | some p =>
+            let r := splitMetrics size p
+            ({ s with src := .metrics size p }, [s!"obs dest | {Codec.showMPayload r.1}", s!"obs rem | {Codec.showMPayload r.2}"])
+          | Option.none => (s, ["obs bad-op"])
+        else (s, ["obs bad-op"])
+      | Option.none => (s, ["obs bad-op"])
+    | _ => (s, ["obs bad-op"])
+  onObs := fun s toks =>
+    match toks with
+    | _ :: "dest" :: "|" :: rest => { s with implDest := some rest }
+    | _ :: "rem" :: "|" :: rest => { s with implRem := some rest }
+    | _ => s
+  onEnd := fun s =>
+    match s.src, s.implDest, s.implRem with
+    | .logs size p, some d, some r =>
+      match Codec.parsePayload d, Codec.parsePayload r with
+      | some d, some r => checkLogs size p d r
+      | _, _ => ["prop conserve=FAIL sig=C17/split/unparsable-output"]
+    | .metrics size p, some d, some r =>
+      match Codec.parseMPayload d, Codec.parseMPayload r with
+      | some d, some r => checkMetrics size p d r
+      | _, _ => ["prop conserve=FAIL sig=C17/split/unparsable-output"]
+    | .none, _, _ => []
+    | _, _, _ => ["prop conserve=FAIL sig=C17/split/no-output"]
+
+/-! ### processor -/
+
+/-- what the generic processor handler needs from a signal -/
+structure Sig (P : Type) where
+  ops : BatchOps P
+  parse : List String → Option P
+  shw : P → String
+  /-- (item id, full context as a string) of every item -/
+  items : P → List (Nat × String)
+
+def logsSig : Sig (List Res) :=
+  { ops := logsBatch, parse := Codec.parsePayload, shw := Codec.showPayload,
+    items := fun p => (flatten p).map (fun c => (c.2.2.id, s!"{c.1.attr},{c.1.schema},{c.2.1.name},{c.2.1.ver},{c.2.1.attr},{c.2.1.schema}")) }
+
+def metricsSig : Sig (List MRes) :=
+  { ops := metricsBatch, parse := Codec.parseMPayload, shw := Codec.showMPayload,
+    items := fun p => (mflatten p).map (fun c =>
+      let m := c.2.2.1
+      (c.2.2.2.id, s!"{c.1.attr},{c.1.schema},{c.2.1.name},{c.2.1.ver},{c.2.1.attr},{c.2.1.schema},{m.name},{m.unit},{m.desc},{m.ty},{m.temp},{m.mono},{m.md}")) }
+
+def parseKey (s : String) : Option Key :=
+  if s = "_" then some [] else
+  (s.splitOn "/").mapM (fun part => if part = "-" then some [] else (part.splitOn ".").mapM String.toNat?)
+
+def showKey (nkeys : Nat) (k : Key) : String :=
+  if nkeys = 0 then "_" else
+  "/".intercalate (k.map (fun vs => if vs.isEmpty then "-" else ".".intercalate (vs.map toString)))
+
+/-- accepted item: id, context, group, arrival time -/
+structure Acc where
+  id : Nat
+  ctx : String
+  key : String
+  t : Nat
+
+/-- emitted item as seen on the implementation side -/
+structure Em where
+  id : Nat
+  ctx : String
+  key : String
+  t : Nat
+  batch : Nat   -- index of the batch
+  batchLen : Nat
+
+structure PS (P : Type) where
+  cfg : Cfg := { sbs := 0, max := 0, timeout := 0 }
+  pr : Proc P := { shards := [] }
+  accepted : List Acc := []
+  groups : List String := []   -- groups that were accepted at least once (also with empty payloads)
+  lastOpArrive : Option (String × List (Nat × String)) := none  -- pending accept decision (key, items)
+  pendingKey : Option String := none
+  emitted : List Em := []
+  nbatch : Nat := 0
+  fails : List String := []
+  shut : Bool := false
+
+def sortStrings (l : List String) : List String := l.mergeSort (fun a b => a ≤ b)
+
+def showEmits {P : Type} (sg : Sig P) (nkeys : Nat) (es : List (Emit P)) : List String :=
+  sortStrings (es.map (fun e => s!"obs emit t={e.t} k={showKey nkeys e.key} | {sg.shw e.p}"))
+
+/-- clauses that can be judged after every label, on the implementation's emits -/
+def pendingCheck {P : Type} (s : PS P) : List String :=
+  let keys := (s.accepted.map (·.key)).eraseDups
+  keys.filterMap (fun k =>
+    let pend := (s.accepted.filter (·.key = k)).length - (s.emitted.filter (·.key = k)).length
+    if hasTimer s.cfg then
+      if pend ≥ s.cfg.sbs then some s!"prop trigger=FAIL sig=C17/proc/size-trigger-missed group={k} pending={pend} send_batch_size={s.cfg.sbs}" else none
+    else if pend ≠ 0 then some s!"prop trigger=FAIL sig=C17/proc/not-sent-immediately group={k} pending={pend}" else none)
+
+def procHandler {P : Type} (sg : Sig P) : Handler (PS P) where
+  init := {}
+  onOp := fun s toks =>
+    match toks with
+    | "cfg" :: rest =>
+      match kvNat rest "sbs", kvNat rest "max", kvNat rest "timeout", kvNat rest "nkeys", kvNat rest "limit" with
+      | some sbs, some max, some timeout, some nkeys, some limit =>
+        let c : Cfg := { sbs := sbs, max := max, timeout := timeout, nkeys := nkeys, limit := limit }
+        ({ s with cfg := c, pr := Proc.init sg.ops c }, ["obs done"])
+      | _, _, _, _, _ => (s, ["obs bad-op"])
+    | "arrive" :: k :: "|" :: rest =>
+      match (kv [k] "k").bind parseKey, sg.parse rest, kv [k] "k" with
+      | some key, some p, some ks =>
+        match s.pr.arrive sg.ops s.cfg key p with
+        | some (pr, es) => ({ s with pr := pr, lastOpArrive := some (ks, sg.items p), pendingKey := some ks }, showEmits sg s.cfg.nkeys es ++ ["obs ok"])
+        | Option.none => ({ s with lastOpArrive := some (ks, sg.items p), pendingKey := some ks }, ["obs err toomany"])
+      | _, _, _ => (s, ["obs bad-op"])
+    | ["advance", us] =>
+      match kvNat [us] "us" with
+      | some dt =>
+        let r := s.pr.advance sg.ops s.cfg dt
+        ({ s with pr := r.1 }, showEmits sg s.cfg.nkeys r.2 ++ ["obs done"])
+      | Option.none => (s, ["obs bad-op"])
+    | ["shutdown"] =>
+      let r := s.pr.shutdown sg.ops s.cfg
+      ({ s with pr := r.1, shut := true }, showEmits sg s.cfg.nkeys r.2 ++ ["obs done"])
+    | _ => (s, ["obs bad-op"])
+  onObs := fun s toks =>
+    match toks with
+    | _ :: "emit" :: t :: k :: "|" :: rest =>
+      match kvNat [t] "t", kv [k] "k", sg.parse rest with
+      | some t, some k, some p =>
+        let its := sg.items p
+        let ems := its.map (fun (id, ctx) => ({ id := id, ctx := ctx, key := k, t := t, batch := s.nbatch, batchLen := its.length } : Em))
+        -- arrival being processed counts as accepted before its own emits are judged
+        let s := match s.lastOpArrive with
+          | some (ks, items) => { s with accepted := s.accepted ++ items.map (fun (id, ctx) => ({ id := id, ctx := ctx, key := ks, t := s.pr.now } : Acc)), lastOpArrive := Option.none }
+          | Option.none => s
+        { s with emitted := s.emitted ++ ems, nbatch := s.nbatch + 1 }
+      | _, _, _ => { s with fails := s.fails ++ ["prop parse=FAIL sig=C17/proc/unparsable-emit"] }
+    | [_, "ok"] =>
+      let s := match s.lastOpArrive with
+        | some (ks, items) => { s with accepted := s.accepted ++ items.map (fun (id, ctx) => ({ id := id, ctx := ctx, key := ks, t := s.pr.now } : Acc)), lastOpArrive := Option.none }
+        | Option.none => s
+      let s := match s.pendingKey with
+        | some ks =>
+          let s := if !s.groups.contains ks && s.cfg.nkeys != 0 && s.cfg.limit != 0 && s.groups.length ≥ s.cfg.limit then
+              { s with fails := s.fails ++ [s!"prop cardinality=FAIL sig=C17/proc/accepted-beyond-cardinality-limit groups={s.groups.length} limit={s.cfg.limit}"] }
+            else s
+          { s with groups := if s.groups.contains ks then s.groups else s.groups ++ [ks], pendingKey := Option.none }
+        | Option.none => s
+      { s with fails := s.fails ++ pendingCheck s }
+    | [_, "err", "toomany"] =>
+      -- refusal is legitimate only for a NEW group when the number of groups equals the limit
+      match s.pendingKey with
+      | some ks =>
+        let groups := s.groups
+        let s := { s with lastOpArrive := Option.none, pendingKey := Option.none }
+        if groups.contains ks then { s with fails := s.fails ++ [s!"prop cardinality=FAIL sig=C17/proc/existing-group-refused group={ks}"] }
+        else if s.cfg.limit = 0 ∨ groups.length < s.cfg.limit then
+          { s with fails := s.fails ++ [s!"prop cardinality=FAIL sig=C17/proc/refused-below-limit groups={groups.length} limit={s.cfg.limit}"] }
+        else s
+      | Option.none => s
+    | [_, "done"] => { s with fails := s.fails ++ pendingCheck s }
+    | _ => s
+  onEnd := fun s =>
+    let c := s.cfg
+    let acc := s.accepted
+    let em := s.emitted
+    let once :=
+      if !s.shut then [] else
+      let a := acc.map (fun x => (x.id, x.ctx))
+      let e := em.map (fun x => (x.id, x.ctx))
+      if permB e a then ["prop exactly_once=ok"]
+      else if permB (e.map (·.1)) (a.map (·.1)) then ["prop exactly_once=FAIL sig=C17/proc/item-context-changed"]
+      else ["prop exactly_once=FAIL sig=C17/proc/items-lost-duplicated-or-invented"]
+    let bound := match em.find? (fun x => c.max > 0 && x.batchLen > c.max) with
+      | some x => [s!"prop bound=FAIL sig=C17/proc/batch-exceeds-max items={x.batchLen} max={c.max}"]
+      | Option.none => ["prop bound=ok"]
+    let iso := match em.find? (fun x => (acc.find? (fun a => a.id = x.id)).any (fun a => a.key ≠ x.key)) with
+      | some x => [s!"prop isolation=FAIL sig=C17/proc/item-in-foreign-group item={x.id} sent_as={x.key}"]
+      | Option.none => ["prop isolation=ok"]
+    let late := match em.find? (fun x => (acc.find? (fun a => a.id = x.id)).any (fun a =>
+        if hasTimer c then x.t > a.t + c.timeout else x.t ≠ a.t)) with
+      | some x => [s!"prop timeout=FAIL sig=C17/proc/emitted-after-deadline item={x.id} t={x.t}"]
+      | Option.none => ["prop timeout=ok"]
+    let trig := match s.fails with
+      | [] => ["prop trigger=ok"]
+      | f :: _ => [f]
+    once ++ bound ++ iso ++ late ++ trig
+
+end OtelVerif.Drivers.C17
+
+def main : IO UInt32 :=
+  do
+  -- the processor model is chosen by `kind=` of the first `op cfg`; two drivers share the line format, so peek
+  runMulti [("c17-split", run OtelVerif.Drivers.C17.splitHandler),
+            ("c17-proc-logs", run (OtelVerif.Drivers.C17.procHandler OtelVerif.Drivers.C17.logsSig)),
+            ("c17-proc-metrics", run (OtelVerif.Drivers.C17.procHandler OtelVerif.Drivers.C17.metricsSig))]
